@@ -424,7 +424,11 @@ def train_classifier(prop):
                 tags.append(f"{k}={flags[k]}")
         info = {"tags": tags, "nontrivial": impl.startswith("ok") and flags.get("ZERO") != "1"}
         if impl.split()[0] == "panic":
-            info["prop_fail"] = "trainer-panic"
+            if mobs.split()[0] == "panic":
+                # the Lean port of rucrf's merge / of write_dictionary reaches the same panic site (finding F27)
+                info["prop_fail"] = "generation-panics-as-the-model-predicts"
+            else:
+                info["prop_fail"] = "trainer-panic"
             info["why"] = "generating files from a trained model panicked"
             return info
         if verb != "GEN":
